@@ -311,6 +311,21 @@ func c07Members(rec string) []c07Member {
 		u, _ := tagUID(tag)
 		out = append(out, c07Member{tag, u, string(x.ID), x.Method})
 	}
+	// a member with unknown keys is invalid: it is answered with an error whatever its method
+	var raws []map[string]json.RawMessage
+	if json.Unmarshal([]byte(rec), &raws) != nil {
+		var one map[string]json.RawMessage
+		if json.Unmarshal([]byte(rec), &one) == nil {
+			raws = []map[string]json.RawMessage{one}
+		}
+	}
+	for i, rm := range raws {
+		for k := range rm {
+			if k != "jsonrpc" && k != "id" && k != "method" && k != "params" && i < len(out) {
+				out[i].Method = "!invalid"
+			}
+		}
+	}
 	return out
 }
 
@@ -471,8 +486,9 @@ func TestC07(t *testing.T) {
 						switch {
 						case entries[i].Error != nil && entries[i].Error.Code == -32600 && strings.Contains(entries[i].Error.Message, "duplicate"):
 							verdicts[c.UID] = "dup"
-						case entries[i].Error != nil && entries[i].Error.Code == -32601:
-							verdicts[c.UID] = "notfound"
+						case entries[i].Error != nil && (entries[i].Error.Code == -32601 || (entries[i].Error.Code == -32600 && c.Method != "m")):
+							verdicts[c.UID] = "notfound" // answered without running and without reserving the id
+
 						default:
 							verdicts[c.UID] = "run"
 						}
@@ -513,6 +529,10 @@ func TestC07(t *testing.T) {
 			{Concurrency: 2, Ops: []envOp{{Kind: "send", Arg: c07Mark(0, `{"jsonrpc":"2.0","id":1,"method":"nope","params":["c1","ok"]}`, reqCall(2, "c2", "ok"))}, {Kind: "send", Arg: c07Mark(1, reqCall(1, "c3", "ok"))}}},
 			{Concurrency: 2, Ops: []envOp{{Kind: "send", Arg: c07Mark(0, reqCall(1, "c1", "ok"), reqCall(1, "c2", "ok"), reqCall(2, "c3", "ok"))}, {Kind: "send", Arg: c07Mark(1, reqCall(1, "c4", "ok"))}}},
 		}
+		corpus = append(corpus,
+			&srvScenario{Concurrency: 2, Ops: []envOp{{Kind: "send", Arg: c07Mark(0, `{"jsonrpc":"2.0","id":7,"params":["c1","ok"]}`)}, {Kind: "send", Arg: c07Mark(1, reqCall(7, "c2", "ok"))}}},
+			&srvScenario{Concurrency: 2, Ops: []envOp{{Kind: "send", Arg: c07Mark(0, `{"jsonrpc":"2.0","id":"x","method":"m","params":["c1","ok"],"zz":1}`)}, {Kind: "send", Arg: c07Mark(1, reqCall("x", "c2", "ok"))}}},
+		)
 		for _, sc := range corpus {
 			for j := 0; j < pick(40, 400); j++ {
 				runOne(sc, seededPick(rng))
@@ -585,6 +605,11 @@ func c07Traffic(rng *rand.Rand, n int) []envOp {
 			return fmt.Sprintf(`{"jsonrpc":"2.0","id":%d,"method":"nope","params":["c%d","ok"]}`, 1+rng.Intn(3), uid)
 		case 2:
 			return fmt.Sprintf(`{"jsonrpc":"2.0","id":%d,"method":"rpc.other","params":["c%d","ok"]}`, 1+rng.Intn(3), uid)
+		case 3:
+			if rng.Intn(2) == 0 { // a member with an id but no method, or an invalid one: answered with an error, id never reserved
+				return fmt.Sprintf(`{"jsonrpc":"2.0","id":%d,"params":["c%d","ok"]}`, 1+rng.Intn(3), uid)
+			}
+			return fmt.Sprintf(`{"jsonrpc":"2.0","id":%d,"method":"m","params":["c%d","ok"],"zz":1}`, 1+rng.Intn(3), uid)
 		}
 		return reqCall(1+rng.Intn(3), fmt.Sprintf("c%d", uid), []string{"ok", "err", "ok"}[rng.Intn(3)])
 	}
